@@ -117,6 +117,7 @@ class Delta(Funsor, metaclass=DeltaMeta):
             assert name not in point.inputs
             inputs.update({name: point.output})
             inputs.update(point.inputs)
+            inputs.update(log_density.inputs)
 
         output = Real
         fresh = frozenset(name for name, term in terms)
